@@ -159,6 +159,11 @@ def run(res, proof):
             extra = [l for l in txt.split('\n') if l and l not in valid.split('\n')]
             multi += '\n'.join(extra) + '\n'
         jobs.append({'text': multi, 'mode': 'outcome'}); labels.append(('multi-fault', multi))
+        if rng.random() < 0.3:
+            # ignore lists that name other statement kinds, names, or nothing that occurs; and the file entry point
+            ign = rng.choice([['dl-domain'], ['nonsense'], ['kernel-complex', 'strand-complex'], ['resting-macrostate'], list(S.domains)[:1] or ['x']])
+            jobs.append({'text': valid, 'mode': 'outcome', 'ignore': ign}); labels.append(('valid-with-ignore-list', valid))
+            jobs.append({'text': multi, 'mode': 'outcome', 'as_file': True}); labels.append(('multi-fault-as-file', multi))
         if rng.random() < 0.25:
             # the same texts read by an unconfigured reader (after set_io_objects / clear_io_objects)
             jobs.append({'text': valid, 'mode': 'outcome', 'config': 'cleared'}); labels.append(('valid-cleared-reader', valid))
@@ -167,6 +172,11 @@ def run(res, proof):
         n = rng.randint(0, 40)
         txt = ''.join(rng.choice('ab=:()+*[]@ \n#length sequence state reaction->./5') for _ in range(n))
         jobs.append({'text': txt, 'mode': 'outcome'}); labels.append(('random-text', txt))
+        if rng.random() < 0.3:
+            jobs.append({'text': txt, 'mode': 'outcome', 'as_file': True}); labels.append(('random-text-as-file', txt))
+    for txt in ('', '\n', ' ', '#', '# only a comment', '\n\n', '\t'):
+        jobs.append({'text': txt, 'mode': 'outcome', 'as_file': True}); labels.append(('degenerate-file', txt))
+        jobs.append({'text': txt, 'mode': 'outcome'}); labels.append(('degenerate-text', txt))
     results = reader.run_jobs(jobs)
     faults = []
     for (lab, txt), r in zip(labels, results):
@@ -186,7 +196,7 @@ def run(res, proof):
     # ---- correspondence of the exception KIND with the Lean reader model on every corrupted document
     lines, impl = [], []
     for (lab, txt), r, job in zip(labels, results, jobs):
-        if job.get('pre') or lab == 'random-text' or job.get('config'):
+        if job.get('pre') or lab.startswith(('random-text', 'degenerate')) or job.get('config') or job.get('ignore') or job.get('as_file'):
             continue
         lines.append('reset'); impl.append('ok')
         lines.append('read.doc\t%s\t\t0 0 0 0 0\t0' % sysgen.PG.hx(txt)); impl.append(r.get('line', '?'))
